@@ -591,6 +591,13 @@ def check_destroy(rep, repo, pre=""):
                 elif not okv:
                     detail = f".{fld} is set to '{show(val)}'"
             rep.fn(pre + "DESTROY", fn, f"{meth}: .{fld} is cleared for every node", ok, detail)
+        # ... and nothing else: the costs, densities, labels and predecessors (for destroy_arcs) that fit computed are what
+        # predict reads afterwards
+        allowed = set(fields) | ({"adjacency", "n_plateaus"} if meth == "reset" else set())
+        for e in w.events:
+            if e.kind == "store" and e.target[0] == "attr" and e.target[2] not in allowed:
+                rep.ev(pre + "DESTROY-stray", e, False,
+                       f"{meth} also writes .{e.target[2]}: state computed by fit (and read by predict) is wiped when the arcs are dropped")
     w = graph_walk(repo, "Subgraph", "reset")
     calls = [e for e in w.events if e.kind == "call" and e.name in ("destroy_arcs", "<inline>")
              and ("destroy_arcs" in (e.name, ) or (e.target and str(e.target[1]).endswith(".destroy_arcs")))]
